@@ -194,6 +194,19 @@ def run(rep, tier, rng):
                           {"kind": "search", "family": "mmr", "case": c, "impl": x[:600]})
             found = True
 
+    # positions outside the MMR: the native Mmr::get reports an error, mmr::get must fail as well
+    ocs = []
+    for nl in (1, 2, 3, 5, 6, 7, 8, 12):
+        src = "use.std::collections::mmr begin " + " ".join("push.1000 push.%d.%d.%d.%d exec.mmr::add" % (i + 1, i + 11, i + 21, i + 31) for i in range(nl))
+        for pos in sorted({nl, nl + 1, nl + 2, 2 * nl, 2 * nl + 1, 4 * nl, 2**31, 2**32 - 1}):
+            ocs.append((nl, pos, "400000 | 7 8 9 | | std | | %s push.1000 push.%d exec.mmr::get end" % (src, pos)))
+    for (nl, pos, c), x in zip(ocs, common.run_impl("masm", [c for _, _, c in ocs], tag="c18o")):
+        dist["mmr-get-out-of-range:%s" % x.split()[0]] += 1
+        if x.startswith("OK") or x.startswith("PANIC"):
+            rep.violation("mmr::get of position %d in an MMR with %d leaves does not fail (%s)" % (pos, nl, x[:60]),
+                          {"kind": "search", "family": "masm", "case": c, "impl": x[:300]})
+            found = True
+
     rep.coverage["cases"] = sum(dist.values())
     rep.coverage["distribution"] = dict(dist)
     base.report_proof_failure(rep, "C18", pr, found)
